@@ -119,11 +119,3 @@ pub fn size_total<K: Kind>() {
     witness!(true, "size returned");
 }
 
-pub fn dur_accessors_total<K: Kind>() {
-    let a = K::sym();
-    done(vf::get_hours(a.cel(), vec![CelValue::Null]));
-    done(vf::get_minutes(a.cel(), vec![CelValue::Null]));
-    done(vf::get_seconds(a.cel(), vec![CelValue::Null]));
-    done(vf::get_milliseconds(a.cel(), vec![CelValue::Null]));
-    witness!(true, "accessors returned");
-}
